@@ -7,6 +7,7 @@ import (
 	"fmt"
 	"os"
 	"os/exec"
+	"path"
 	"path/filepath"
 	"strings"
 	"time"
@@ -81,7 +82,7 @@ func init() {
 		ws := loadWitnesses()
 		exact := false
 		for _, w := range ws {
-			if w.Obligation == res.Name {
+			if obMatch(w.Obligation, res.Name) {
 				exact = true
 			}
 		}
@@ -89,7 +90,7 @@ func init() {
 		done := map[string]bool{}
 		for _, w := range ws {
 			// exact match on the obligation; otherwise every witness search of the same function
-			if exact && w.Obligation != res.Name {
+			if exact && !obMatch(w.Obligation, res.Name) {
 				continue
 			}
 			if !exact && !strings.HasPrefix(w.Obligation, unit+"#") {
@@ -135,3 +136,15 @@ func (r *Run) tryReplay(res *ObResult) (string, bool) {
 }
 
 var replayers []func(r *Run, res *ObResult) (string, bool, bool)
+
+// obMatch: an index entry names one obligation, or a family of obligations with * (as in path.Match).
+func obMatch(pattern, name string) bool {
+	if pattern == name {
+		return true
+	}
+	if strings.Contains(pattern, "*") {
+		ok, _ := path.Match(pattern, name)
+		return ok
+	}
+	return false
+}
